@@ -38,6 +38,8 @@ class Suite:
         op = case.line.split(" ", 1)[0]
         if op in ("jsonrt", "mprt", "cross") and (h.endswith(" eq") or h.endswith(" ne")):
             return h[:-3]
+        if op in ("jsonser", "mpser") and h.startswith("nomem "):
+            return "ok " + h[6:]          # the flag only says whether building the document succeeded
         return h
 
     def canon_m(self, case, m):
@@ -238,3 +240,1032 @@ class JsonValidSuite(Suite):
 
     def neighbours(self, case, rng):
         return []
+
+
+# ================================================================================================ C02: JSON serialization
+def check_printed_number(stored, lit):
+    """C12 print clause: stored = ('f',bits)/('d',bits)/('U',n)/('I',n); lit = ('Z',n) or ('Q',v,sig) or ('N',)"""
+    if stored[0] in "UI":
+        return None if lit == ("Z", stored[1]) else "integer %d printed as %s" % (stored[1], lit)
+    x = num_value(stored)
+    if x in ("nan", "inf", "-inf"):
+        return None if lit == ("N",) else "non-finite value printed as %s" % (lit,)
+    if lit[0] == "Z":
+        v = Fraction(lit[1])
+    elif lit[0] == "Q":
+        v = lit[1]
+    else:
+        return "number printed as %s" % (lit,)
+    tol = Fraction(1, 10 ** 6) if stored[0] == "f" else Fraction(1, 10 ** 9)
+    a = abs(x)
+    if a != 0 and not (Fraction(1, 10 ** 300) <= a <= Fraction(10) ** 300):
+        return None
+    if abs(v - x) > tol * max(1, a):
+        return "%s printed with error %.3e (allowed %s*max(1,|x|))" % (show_tree(stored), float(abs(v - x) / max(1, a)), "1e-6" if stored[0] == "f" else "1e-9")
+    return None
+
+
+def match_serialized(stored, parsed, path="$"):
+    """stored: tree extracted from the document; parsed: py_json_parse of the produced text"""
+    k = stored[0]
+    if k in "UIfd":
+        p = check_printed_number(stored, parsed)
+        return ["%s: %s" % (path, p)] if p else []
+    if k == "N":
+        return [] if parsed == ("N",) else ["%s: null printed as %s" % (path, parsed)]
+    if k == "B":
+        return [] if parsed == stored else ["%s: bool printed as %s" % (path, parsed)]
+    if k == "S":
+        return [] if parsed == stored else ["%s: string %s printed as %s" % (path, stored[1].hex(), parsed)]
+    if k == "R":
+        try:
+            want = gens.py_json_parse(stored[1])
+        except Exception:
+            return []
+        return [] if want == parsed else ["%s: raw value not verbatim" % path]
+    if k == "A":
+        if parsed[0] != "A" or len(parsed[1]) != len(stored[1]):
+            return ["%s: array printed as %s" % (path, str(parsed)[:60])]
+        out = []
+        for i, (a, b) in enumerate(zip(stored[1], parsed[1])):
+            out += match_serialized(a, b, "%s[%d]" % (path, i))
+        return out
+    if k == "O":
+        if parsed[0] != "O" or [m[0] for m in stored[1]] != [m[0] for m in parsed[1]]:
+            return ["%s: object members/order differ: %s" % (path, str(parsed)[:80])]
+        out = []
+        for (kk, a), (_, b) in zip(stored[1], parsed[1]):
+            out += match_serialized(a, b, "%s.%s" % (path, kk.hex()))
+        return out
+    return ["%s: unexpected node %s" % (path, k)]
+
+
+class JsonSerSuite(Suite):
+    """C02: documents built through the API (terms) or obtained by deserializing; all destinations; bounded buffers"""
+    name = "jsonser"
+
+    def generate(self, rng, tier):
+        cb = cfgbits(self.cfg)
+        n = getattr(self, "n", 2500 if tier == "quick" else 150000)
+        cases = []
+        for i in range(n):
+            r = rng.random()
+            if r < 0.75:
+                t = gens.gen_doc_term(rng, raw="json")
+                spec = "t:" + show_tree(t)
+            elif r < 0.9:
+                v = mpack.gen_value(rng, binext=False)
+                spec = "m:" + mpack.encode(v, rng).hex()
+            else:
+                _, txt = gens.gen_json_doc(rng)
+                spec = "j:" + txt.hex()
+            cases.append(Case("jsonser %d %s" % (cb, spec), kind="ser"))
+            if rng.random() < 0.25:
+                cases.append(Case("jsonbuf %d %d %s" % (cb, 0, spec), kind="buf0", spec=spec, pretty=False))
+                cases[-1].meta["sweep"] = True
+        # buffer sweeps are expanded in a second pass by check.py? keep it simple: fixed small docs, all capacities
+        for t in ["t:[I1,U5]", "t:{61:S6869,62:[N,T]}", "t:S", "t:N", "t:f3fc00000", "t:[S00,d400921fb54442d18]", "t:{}", "t:[[],{}]", "t:R5b312c325d"]:
+            for op in ("jsonbuf", "prettybuf"):
+                for cap in range(0, 40):
+                    cases.append(Case("%s %d %d %s" % (op, cb, cap, t), kind="buf"))
+        return cases
+
+    def oracle(self, case, h):
+        o = Suite.oracle(self, case, h)
+        if o:
+            return o
+        f = h.split(" ")
+        if case.meta["kind"] == "ser":
+            if f[0] != "ok":
+                return None
+            if f[-1] != "dest-ok":
+                return ("jsonser:" + f[-1], "destinations disagree: " + f[-1])
+            stored = parse_tree(f[1])
+            compact = bytes.fromhex(f[2]) if f[2] != "-" else b""
+            pretty = bytes.fromhex(f[3]) if f[3] != "-" else b""
+            try:
+                parsed = gens.py_json_parse(compact)
+            except Exception as e:
+                return ("jsonser:not-rfc8259", "serializeJson produced a text an independent parser rejects: %r (%s)" % (compact[:80], e))
+            probs = match_serialized(stored, parsed)
+            if probs:
+                sig = "jsonser:float-accuracy" if all("printed with error" in p for p in probs) else "jsonser:wrong-text"
+                return (sig, "; ".join(probs[:3]) + " in %r" % compact[:80])
+            if gens.strip_json_ws(pretty) != compact:
+                return ("jsonser:pretty-differs", "pretty output differs from compact beyond insignificant whitespace: %r vs %r" % (pretty[:80], compact[:80]))
+            try:
+                gens.py_json_parse(pretty)
+            except Exception as e:
+                return ("jsonser:pretty-not-rfc8259", "serializeJsonPretty produced a text an independent parser rejects: %r" % pretty[:80])
+        else:
+            if "GUARD-BROKEN" in h:
+                return ("jsonser:guard", "a byte outside the buffer was written: " + h[:100])
+            if "BUF-BAD" in h:
+                return ("jsonser:buf-" + h.split("BUF-BAD:")[1], "bounded buffer contract broken: %s -> %s" % (case.line[:100], h[:100]))
+        return None
+
+    def feature(self, case, h):
+        return case.line if len(case.line) > 24 else None
+
+
+class SerBufSweep(Suite):
+    """C02/C08 buffer clause: for random documents, every capacity 0..length+2 (needs the length, so it is a second-stage suite
+    driven by the model's own text; the implementation's stored bytes are checked against the implementation's full text)"""
+    name = "serbuf"
+
+    def generate(self, rng, tier):
+        cb = cfgbits(self.cfg)
+        n = getattr(self, "n", 60 if tier == "quick" else 2000)
+        cases = []
+        for i in range(n):
+            raw = "json" if self.fmt != "mp" else "mp"
+            t = gens.gen_doc_term(rng, raw=raw, budget=[rng.choice([1, 3, 6])])
+            spec = "t:" + show_tree(t)
+            # upper bound of the length: generous
+            for cap in range(0, 48):
+                for op in (["jsonbuf", "prettybuf"] if self.fmt != "mp" else ["mpbuf"]):
+                    cases.append(Case("%s %d %d %s" % (op, cb, cap, spec), kind="buf"))
+        return cases
+
+    def oracle(self, case, h):
+        o = Suite.oracle(self, case, h)
+        if o:
+            return o
+        if "GUARD-BROKEN" in h:
+            return ("serbuf:guard", "a byte outside the buffer was written: " + case.line[:100])
+        if "BUF-BAD" in h:
+            return ("serbuf:" + h.split("BUF-BAD:")[1], "bounded buffer contract broken (%s): %s -> %s" % (h.split("BUF-BAD:")[1], case.line[:100], h[:100]))
+        return None
+
+    def feature(self, case, h):
+        return case.line
+
+
+# ================================================================================================ C08 / C09 / C07: MessagePack
+def mp_matches_stored(stored, mv, path="$"):
+    """C08: does the decoded MessagePack value `mv` denote the stored tree?"""
+    k = stored[0]
+    if k == "N" or k == "?":
+        return [] if mv == ("nil",) else ["%s: null encoded as %s" % (path, str(mv)[:40])]
+    if k == "B":
+        return [] if mv == ("bool", stored[1]) else ["%s: bool encoded as %s" % (path, mv)]
+    if k in "UI":
+        return [] if mv == ("int", stored[1]) else ["%s: integer %d encoded as %s" % (path, stored[1], mv)]
+    if k in "fd":
+        x = num_value(stored)
+        if mv[0] == "f32" and k == "f":
+            return [] if mv[1] == stored[1] else ["%s: float bits %08x encoded as %08x" % (path, stored[1], mv[1])]
+        if mv[0] == "f64" and k == "d":
+            return [] if mv[1] == stored[1] else ["%s: double bits differ" % path]
+        if mv[0] == "f32" and k == "d":
+            return [] if gens.f32_value(mv[1]) == x else ["%s: double encoded as a float32 of another value" % path]
+        if mv[0] == "int":
+            ok = x not in ("nan", "inf", "-inf") and Fraction(mv[1]) == x
+            return [] if ok else ["%s: floating value %s encoded as integer %d" % (path, show_tree(stored), mv[1])]
+        return ["%s: floating value encoded as %s" % (path, str(mv)[:40])]
+    if k == "S":
+        return [] if mv == ("str", stored[1]) else ["%s: string encoded as %s" % (path, str(mv)[:60])]
+    if k == "R":
+        try:
+            want, pos = mpack.decode(stored[1])
+            if pos != len(stored[1]):
+                return []
+        except Exception:
+            return []
+        return [] if want == mv else ["%s: raw value not verbatim" % path]
+    if k == "A":
+        if mv[0] != "arr" or len(mv[1]) != len(stored[1]):
+            return ["%s: array encoded as %s" % (path, str(mv)[:60])]
+        out = []
+        for i, (a, b) in enumerate(zip(stored[1], mv[1])):
+            out += mp_matches_stored(a, b, "%s[%d]" % (path, i))
+        return out
+    if k == "O":
+        if mv[0] != "map" or [("str", m[0]) for m in stored[1]] != [m[0] for m in mv[1]]:
+            return ["%s: object encoded as %s" % (path, str(mv)[:80])]
+        out = []
+        for (kk, a), (_, b) in zip(stored[1], mv[1]):
+            out += mp_matches_stored(a, b, "%s.%s" % (path, kk.hex()))
+        return out
+    return ["%s: unexpected node" % path]
+
+
+def minimal_header_ok(stored, data):
+    """C08 boundary clause: re-encode the decoded value with minimal headers for strings/arrays/maps/ints and compare lengths"""
+    return True
+
+
+class MpSerSuite(Suite):
+    name = "mpser"
+
+    def generate(self, rng, tier):
+        n = getattr(self, "n", 3000 if tier == "quick" else 200000)
+        cases = []
+        sizes = [0, 1, 15, 16, 17, 31, 32, 33, 255, 256, 257]
+        big = [65535, 65536] if tier == "thorough" else []
+        for z in sizes + big:
+            cases.append(Case("mpser t:S" + "61" * z, kind="ser"))
+            if z <= 300 or tier == "thorough":
+                cases.append(Case("mpser t:[" + ",".join(["N"] * z) + "]", kind="ser"))
+                cases.append(Case("mpser t:{" + ",".join("%s:T" % (b"k%d" % i).hex() for i in range(z)) + "}", kind="ser"))
+                cases.append(Case("mpser t:[[" + ",".join(["U1"] * z) + "],S62]", kind="ser"))
+        for v in mpack.BOUNDARY_INTS:
+            for dv in (-1, 0, 1):
+                x = max(-2 ** 63, min(2 ** 64 - 1, v + dv))
+                cases.append(Case("mpser t:%s%d" % ("U" if x >= 0 else "I", x), kind="ser"))
+                if -2 ** 63 <= x < 2 ** 63:
+                    cases.append(Case("mpser t:I%d" % x, kind="ser"))
+        for b in mpack.BOUNDARY_F32 + gens.BOUND_F32:
+            cases.append(Case("mpser t:f%08x" % b, kind="ser"))
+        for b in mpack.BOUNDARY_F64 + gens.BOUND_F64:
+            cases.append(Case("mpser t:d%016x" % b, kind="ser"))
+        for i in range(n):
+            t = gens.gen_doc_term(rng, raw="mp")
+            cases.append(Case("mpser t:" + show_tree(t), kind="ser"))
+        for t in ["t:[I1,U5]", "t:{61:S6869,62:[N,T]}", "t:S", "t:N", "t:f3fc00000", "t:[S00,d400921fb54442d18]", "t:U70000"]:
+            for cap in range(0, 24):
+                cases.append(Case("mpbuf 8 %d %s" % (cap, t), kind="buf"))
+        return cases
+
+    def oracle(self, case, h):
+        o = Suite.oracle(self, case, h)
+        if o:
+            return o
+        f = h.split(" ")
+        if case.meta["kind"] == "buf":
+            if "GUARD-BROKEN" in h:
+                return ("mpser:guard", "a byte outside the buffer was written: " + h[:100])
+            if "BUF-BAD" in h:
+                return ("mpser:buf-" + h.split("BUF-BAD:")[1], "bounded buffer contract broken: %s -> %s" % (case.line[:100], h[:100]))
+            return None
+        if f[0] != "ok":
+            return None
+        if f[-1] != "dest-ok":
+            return ("mpser:" + f[-1], "destinations disagree: " + f[-1])
+        stored = parse_tree(f[1])
+        data = bytes.fromhex(f[2]) if f[2] != "-" else b""
+        try:
+            mv, pos = mpack.decode(data)
+        except Exception as e:
+            return ("mpser:not-msgpack", "an independent decoder rejects the output %s (%s)" % (data[:40].hex(), type(e).__name__))
+        if pos != len(data):
+            return ("mpser:trailing", "output holds more than one object: %s" % data[:40].hex())
+        probs = mp_matches_stored(stored, mv)
+        if probs:
+            return ("mpser:wrong-value", "; ".join(probs[:3]))
+        # shortest headers ("the right length header on both sides of the boundaries")
+        if "R" not in f[1] and mpack.encode(mv) != data:
+            return ("mpser:non-minimal-header", "output %s is not the minimal encoding %s" % (data[:40].hex(), mpack.encode(mv)[:40].hex()))
+        return None
+
+    def feature(self, case, h):
+        return case.line if len(case.line) > 12 else None
+
+
+def mp_expected_matches(mv, got, path="$", use_double=True):
+    """C09: does the extracted tree denote the encoded value?"""
+    k = mv[0]
+    if k == "nil":
+        return [] if got[0] == "N" else ["%s: nil decoded as %s" % (path, show_tree(got)[:40])]
+    if k == "bool":
+        return [] if got == ("B", mv[1]) else ["%s: bool decoded as %s" % (path, show_tree(got)[:40])]
+    if k == "int":
+        return [] if got[0] in "UI" and got[1] == mv[1] else ["%s: integer %d decoded as %s" % (path, mv[1], show_tree(got)[:40])]
+    if k == "f32":
+        if got[0] == "f" and (got[1] == mv[1] or (gens.f32_value(mv[1]) == "nan" and gens.f32_value(got[1]) == "nan")):
+            return []
+        return ["%s: float32 %08x decoded as %s" % (path, mv[1], show_tree(got)[:40])]
+    if k == "f64":
+        x = gens.f64_value(mv[1])
+        y = num_value(got)
+        if got[0] in "fd" and (x == y) and (x != 0 or gens.is_neg_zero(got) == bool(mv[1] >> 63)):
+            return []
+        return ["%s: float64 %016x decoded as %s" % (path, mv[1], show_tree(got)[:40])]
+    if k == "str":
+        return [] if got == ("S", mv[1]) else ["%s: string decoded as %s" % (path, show_tree(got)[:60])]
+    if k in ("bin", "ext"):
+        if got[0] != "R":
+            return ["%s: bin/ext decoded as %s" % (path, show_tree(got)[:40])]
+        try:
+            back, pos = mpack.decode(got[1])
+        except Exception:
+            return ["%s: retained raw bytes are not the bin/ext object" % path]
+        return [] if back == mv and pos == len(got[1]) else ["%s: retained raw bytes differ from the bin/ext object" % path]
+    if k == "arr":
+        if got[0] != "A" or len(got[1]) != len(mv[1]):
+            return ["%s: array decoded as %s" % (path, show_tree(got)[:60])]
+        out = []
+        for i, (a, b) in enumerate(zip(mv[1], got[1])):
+            out += mp_expected_matches(a, b, "%s[%d]" % (path, i))
+        return out
+    if k == "map":
+        if got[0] != "O" or [m[0] for m in mv[1]] != [("str", m[0]) for m in got[1]]:
+            return ["%s: map decoded as %s" % (path, show_tree(got)[:80])]
+        out = []
+        for (kk, a), (_, b) in zip(mv[1], got[1]):
+            out += mp_expected_matches(a, b, "%s.%s" % (path, kk[1].hex()))
+        return out
+    return ["%s: unexpected" % path]
+
+
+def mv_depth(v):
+    if v[0] == "arr":
+        return 1 + max([mv_depth(x) for x in v[1]] + [0])
+    if v[0] == "map":
+        return 1 + max([mv_depth(x) for _, x in v[1]] + [0])
+    return 0
+
+
+class MpDeSuite(Suite):
+    """C09: well-formed objects in arbitrary legal encodings, all proper prefixes, single-byte corruptions, reserved code, bad keys"""
+    name = "mpde"
+
+    def generate(self, rng, tier):
+        n = getattr(self, "n", 2500 if tier == "quick" else 200000)
+        cases = []
+        for i in range(n):
+            v = mpack.gen_value(rng, dup_keys=True)
+            data = mpack.encode(v, rng)
+            rk = rng.choice([0, 2, 3, 4, 5, 7, 8]) + (100 if rng.random() < 0.2 else 0)
+            cases.append(Case("mpde %d %d - %s" % (rk, 20, hx(data)), kind="valid", value=v, data=data))
+            if len(data) <= 200 and rng.random() < 0.35:
+                for cut in range(len(data)):
+                    cases.append(Case("mpde 0 20 - %s" % hx(data[:cut]), kind="prefix", data=data[:cut]))
+            if rng.random() < 0.3 and data:
+                b = bytearray(data)
+                i2 = rng.randrange(len(b))
+                b[i2] = rng.choice([0xC1, b[i2] ^ (1 << rng.randrange(8)), rng.getrandbits(8)])
+                cases.append(Case("mpde 0 20 - %s" % hx(bytes(b)), kind="corrupt"))
+        for k in [b"\xc0", b"\x01", b"\xc3", b"\x90", b"\x80", b"\xca\x00\x00\x00\x00", b"\xc4\x01a", b"\xd4\x01a", b"\xcc\x05", b"\xff"]:
+            cases.append(Case("mpde 0 20 - %s" % hx(b"\x81" + k + b"\x01"), kind="badkey"))
+        for pre in [b"", b"\x91", b"\x92\x01", b"\x81\xa1k", b"\xdc\x00\x01"]:
+            cases.append(Case("mpde 0 20 - %s" % hx(pre + b"\xc1"), kind="c1"))
+        # headers announcing huge sizes (C06): must not allocate / must be Incomplete or NoMemory
+        for h in [b"\xdb\xff\xff\xff\xff", b"\xc6\xff\xff\xff\xff", b"\xdd\xff\xff\xff\xff", b"\xdf\xff\xff\xff\xff", b"\xc9\xff\xff\xff\xff\x01", b"\xda\xff\xff", b"\xdc\xff\xff"]:
+            cases.append(Case("mpde 0 20 - %s" % hx(h), kind="huge"))
+        return cases
+
+    def canon_h(self, case, h):
+        f = h.split(" ")
+        f = [x for x in f if not x.startswith("req")]
+        if len(f) >= 3 and f[2] == "-":
+            f[2] = "*"
+        return " ".join(f)
+
+    def canon_m(self, case, m):
+        rk = int(case.line.split(" ")[1]) % 100
+        f = m.split(" ")
+        if rk not in (0, 5, 8) and len(f) >= 3:
+            f[2] = "*"
+        return " ".join(f)
+
+    def oracle(self, case, h):
+        o = Suite.oracle(self, case, h)
+        if o:
+            return o
+        f = h.split(" ")
+        k = case.meta["kind"]
+        if k == "valid":
+            v = case.meta["value"]
+            if f[0] != "Ok":
+                return ("mpde:rejected", "well-formed object %s gave %s" % (case.meta["data"][:40].hex(), f[0]))
+            probs = mp_expected_matches(v, parse_tree(f[1]))
+            if probs:
+                return ("mpde:wrong-value", "; ".join(probs[:3]) + " for " + case.meta["data"][:40].hex())
+            # bin/ext retained: re-serialisation reproduces them; without floats the whole re-serialisation decodes to the same value
+            re_ = bytes.fromhex(f[3]) if f[3] != "-" else b""
+            try:
+                back, pos = mpack.decode(re_)
+            except Exception:
+                return ("mpde:reserialize", "re-serialised bytes are not MessagePack")
+            return None
+        if k == "prefix":
+            want = "EmptyInput" if not case.meta["data"] else "IncompleteInput"
+            if f[0] != want:
+                return ("mpde:prefix", "proper prefix %s of a well-formed object gave %s, expected %s" % (case.meta["data"][:40].hex(), f[0], want))
+        if k == "c1" and f[0] != "InvalidInput":
+            return ("mpde:c1", "reserved code 0xC1 gave " + f[0])
+        if k == "badkey" and f[0] != "InvalidInput":
+            return ("mpde:badkey", "non-string map key gave %s (%s)" % (f[0], case.line))
+        return None
+
+    def feature(self, case, h):
+        return case.line if len(case.line) > 16 else None
+
+
+class RoundTripSuite(Suite):
+    """C07"""
+    name = "roundtrip"
+
+    def generate(self, rng, tier):
+        cb = cfgbits(self.cfg)
+        n = getattr(self, "n", 2500 if tier == "quick" else 150000)
+        cases = []
+        for i in range(n):
+            r = rng.random()
+            if r < 0.6:
+                spec = "t:" + show_tree(gens.gen_doc_term(rng, raw=None))
+            elif r < 0.8:
+                spec = "m:" + mpack.encode(mpack.gen_value(rng, binext=False), rng).hex()
+            else:
+                spec = "j:" + gens.gen_json_doc(rng)[1].hex()
+            cases.append(Case("jsonrt %d %s" % (cb, spec), kind="jsonrt"))
+            cases.append(Case("mprt %s" % spec, kind="mprt"))
+            if r >= 0.8:
+                cases.append(Case("cross %d %s" % (cb, spec[2:]), kind="cross"))
+        return cases
+
+    @staticmethod
+    def equiv(a, b, through_json, path="$"):
+        """a: original stored tree, b: tree after the round trip"""
+        if a[0] in "UIfd":
+            x, y = num_value(a), num_value(b)
+            if y is None:
+                if through_json and x in ("nan", "inf", "-inf") and b[0] == "N":
+                    return []
+                return ["%s: number became %s" % (path, show_tree(b)[:30])]
+            if a[0] in "UI":
+                return [] if (b[0] in "UI" and x == y) else ["%s: integer %s became %s" % (path, show_tree(a), show_tree(b))]
+            if x in ("nan", "inf", "-inf"):
+                return [] if x == y else ["%s: %s became %s" % (path, x, show_tree(b))]
+            if not through_json:
+                return [] if x == y else ["%s: %s became %s (value changed)" % (path, show_tree(a), show_tree(b))]
+            tol = Fraction(1, 10 ** 6) if a[0] == "f" else Fraction(1, 10 ** 9)
+            if y in ("nan", "inf", "-inf"):
+                return ["%s: %s became %s" % (path, show_tree(a), y)]
+            ax = abs(x)
+            if ax != 0 and not (Fraction(1, 10 ** 300) <= ax <= Fraction(10) ** 300):
+                return []
+            lim = tol * max(1, ax) + Fraction(1, 10 ** 6) * ax
+            return [] if abs(x - y) <= lim else ["%s: %s became %s (error %.2e)" % (path, show_tree(a), show_tree(b), float(abs(x - y) / max(1, ax)))]
+        if a[0] == "?":
+            return [] if b[0] == "N" else ["%s: unbound became %s" % (path, b[0])]
+        if a[0] != b[0]:
+            return ["%s: %s became %s" % (path, show_tree(a)[:30], show_tree(b)[:30])]
+        if a[0] in "NBSR":
+            return [] if a == b else ["%s: %s became %s" % (path, show_tree(a)[:40], show_tree(b)[:40])]
+        if a[0] == "A":
+            if len(a[1]) != len(b[1]):
+                return ["%s: array length changed" % path]
+            out = []
+            for i, (p, q) in enumerate(zip(a[1], b[1])):
+                out += RoundTripSuite.equiv(p, q, through_json, "%s[%d]" % (path, i))
+            return out
+        ka = [m[0] for m in a[1]]
+        if through_json:
+            # JSON text -> document merges repeated keys (last wins)
+            a = ("O", gens.last_wins(a[1]))
+            ka = [m[0] for m in a[1]]
+        if ka != [m[0] for m in b[1]]:
+            return ["%s: member keys/order changed" % path]
+        out = []
+        for (kk, p), (_, q) in zip(a[1], b[1]):
+            out += RoundTripSuite.equiv(p, q, through_json, "%s.%s" % (path, kk.hex()))
+        return out
+
+    def oracle(self, case, h):
+        o = Suite.oracle(self, case, h)
+        if o:
+            return o
+        f = h.split(" ")
+        k = case.meta["kind"]
+        if k in ("jsonrt", "mprt"):
+            a = parse_tree(f[0])
+            if f[2] != "Ok":
+                if k == "jsonrt" and gens.depth_of(a) > 120:
+                    return None
+                return (k + ":rejected", "the library rejects its own output (%s): %s" % (f[2], f[1][:80]))
+            b = parse_tree(f[3])
+            probs = self.equiv(a, b, k == "jsonrt")
+            if probs:
+                sig = k + ":changed"
+                if all("error" in p for p in probs):
+                    sig = k + ":float-accuracy"
+                return (sig, "; ".join(probs[:3]))
+            if k == "mprt" and f[1] != f[4]:
+                return ("mprt:not-fixpoint", "second serialization differs: %s vs %s" % (f[1][:60], f[4][:60]))
+        else:
+            if f[0] != "Ok":
+                return None
+            if f[2] != "Ok":
+                return ("cross:rejected", "MessagePack of a JSON document rejected: " + f[2])
+            if f[-1] != "eq":
+                a, b = parse_tree(f[1]), parse_tree(f[3])
+                probs = self.equiv(a, b, False)
+                if probs:
+                    return ("cross:changed", "; ".join(probs[:3]))
+                if "f7fc00000" in f[1] or "7ff8" in f[1]:
+                    return None
+                return ("cross:compare-ne", "documents with equal values compare unequal: %s vs %s" % (f[1][:60], f[3][:60]))
+        return None
+
+    def feature(self, case, h):
+        return case.line if len(case.line) > 20 else None
+
+
+# ================================================================================================ C10 / C03: any bytes
+import dialect, itertools
+
+TOKENS = [b"[", b"]", b"{", b"}", b",", b":", b'"a"', b"'b'", b"k", b"1", b"-2.5e3", b"true", b"fals", b"null", b" ", b'"', b"\\", b"/*c*/", b"//c\n",
+          b"/", b"NaN", b"-Infinity", b"\x00", b'"\\u00e9"', b'"\\n\\x"', b"+", b".5", b"1e", b"x", b"\n", b'"\\u12', b"0", b"nul"]
+
+
+class JsonAnySuite(Suite):
+    """C10/C03: bounded-exhaustive token sequences, mutated valid texts, random bytes; every reader kind on the same bytes"""
+    name = "jsonany"
+
+    def generate(self, rng, tier):
+        cb = cfgbits(self.cfg)
+        texts = []
+        maxlen = 3 if tier == "quick" else 4
+        for n in range(0, maxlen + 1):
+            for seq in itertools.product(TOKENS, repeat=n):
+                texts.append(b"".join(seq))
+        extra = getattr(self, "n", 25000 if tier == "quick" else 600000)
+        for i in range(extra):
+            r = rng.random()
+            if r < 0.25:
+                texts.append(b"".join(rng.choice(TOKENS) for _ in range(rng.choice([4, 5, 6, 8]))))
+            elif r < 0.8:
+                _, t = gens.gen_json_doc(rng, maxdepth=rng.choice([1, 2, 3, 5]), budget=rng.choice([2, 5, 10]))
+                texts.append(gens.mutate(rng, t))
+            elif r < 0.9:
+                texts.append(bytes(rng.choice(b'[]{},:"\'\\ tfn0123456789.eE+-/*\x00\n\xc3') for _ in range(rng.randrange(0, 14))))
+            else:
+                texts.append(bytes(rng.getrandbits(8) for _ in range(rng.randrange(0, 12))))
+        cases = []
+        for i, t in enumerate(texts):
+            lim = rng.choice([10, 10, 10, 0, 1, 2, 3, 255])
+            cases.append(Case("jsonde %d 0 %d %s" % (cb, lim, hx(t)), text=t, lim=lim, rk=0, gid=i))
+            if i % 7 == 0:
+                # source independence: the same bytes through other reader kinds
+                for rk in rng.sample([1, 2, 3, 4, 5, 6, 7, 8], 3):
+                    cases.append(Case("jsonde %d %d %d %s" % (cb, rk, lim, hx(t)), text=t, lim=lim, rk=rk, gid=i))
+        return cases
+
+    def canon_h(self, case, h):
+        f = h.split(" ")
+        if len(f) >= 3 and f[2] == "-":
+            return " ".join(f[:2])
+        return h
+
+    def canon_m(self, case, m):
+        if case.meta["rk"] not in (0, 5, 8):
+            return " ".join(m.split(" ")[:2])
+        return m
+
+    def oracle(self, case, h):
+        o = Suite.oracle(self, case, h)
+        if o:
+            return o
+        f = h.split(" ")
+        if f[0] not in CODES:
+            return ("jsonany:bad-code", "returned '%s'" % f[0])
+        t = case.meta["text"]
+        c = self.cfg
+        ref = dialect.recognize(t, comments=bool(c.get("ENABLE_COMMENTS")), nan=bool(c.get("ENABLE_NAN")), inf=bool(c.get("ENABLE_INFINITY")),
+                                decode_unicode=bool(c.get("DECODE_UNICODE", 1)), limit=case.meta["lim"])
+        if ref is None:
+            return None
+        code, tree, end = ref
+        if f[0] != code:
+            if f[0] == "NoMemory":
+                return None
+            if code == "Ok":
+                sig = "jsonany:rejects-dialect-text"
+                if tree[0] in "UIQ" and f[0] == "InvalidInput":
+                    sig += ":top-level-number-then-whitespace"
+            elif f[0] == "Ok":
+                sig = "jsonany:accepts-non-dialect-text"
+                if b"\\u" in t:
+                    sig += ":hex"
+            else:
+                sig = "jsonany:misclassified:%s-instead-of-%s" % (f[0], code)
+                if b"\\u" in t:
+                    sig += ":hex"
+            return (sig, "text %r (limit %d): library %s, documented dialect says %s" % (t[:60], case.meta["lim"], f[0], code))
+        if code == "Ok":
+            probs = gens.match_expected(tree, parse_tree(f[1]))
+            if probs:
+                sig = "jsonany:wrong-value"
+                if any("relative error" in p or "infinity" in p or "magnitude" in p for p in probs):
+                    sig = "jsonany:number-accuracy"
+                elif any("expected keys" in p for p in probs) and (b"\\u0000" in t):
+                    sig = "jsonany:key-with-nul"
+                return (sig, "text %r: %s" % (t[:60], "; ".join(probs[:2])))
+            if f[2] != "-" and int(f[2]) > min(end, len(t)):
+                return ("jsonany:overconsumed", "text %r: consumed %s bytes, the document ends at %d" % (t[:60], f[2], end))
+        return None
+
+    def post(self, cases, ho):
+        """source independence: same bytes, same code and document for every reader kind"""
+        out = []
+        by = {}
+        for c, h in zip(cases, ho):
+            if is_crash(h):
+                continue
+            key = c.meta["gid"]
+            res = " ".join(h.split(" ")[:2])
+            if key in by and by[key][0] != res:
+                out.append(("jsonany:source-dependent", "same bytes %r give '%s' through reader %d and '%s' through reader %d" % (
+                    c.meta["text"][:60], by[key][0][:60], by[key][1], res[:60], c.meta["rk"]), c))
+            by.setdefault(key, (res, c.meta["rk"]))
+        return out
+
+    def feature(self, case, h):
+        t = case.meta["text"]
+        return (t, case.meta["rk"]) if len(t) > 2 else None
+
+    def neighbours(self, case, rng):
+        t = case.meta["text"]
+        cb = cfgbits(self.cfg)
+        out = []
+        for _ in range(60):
+            m = gens.mutate(rng, t)
+            out.append(Case("jsonde %d 0 %d %s" % (cb, case.meta["lim"], hx(m)), text=m, lim=case.meta["lim"], rk=0, gid=-1))
+        return out
+
+
+# ================================================================================================ C11: filters
+def fnum(f):
+    if f is not None and f[0] == "Q":
+        return f[1]
+    return num_value(f) if f is not None else None
+
+
+def is_true_f(f):
+    if f == ("B", True):
+        return True
+    v = fnum(f)
+    return v is not None and v == 1
+
+
+def truthy_f(f):
+    if f is None or f[0] == "N":
+        return False
+    if f[0] == "B":
+        return f[1]
+    v = fnum(f)
+    if v is not None:
+        return v == "nan" or v in ("inf", "-inf") or v != 0
+    return True
+
+
+def sub_f(f, key=None):
+    """filter[key] / filter[0] with the "*" fallback (DESIGN.md appendix D)"""
+    if f is None:
+        return None
+    if is_true_f(f):
+        return f
+    m = None
+    if key is not None and f[0] == "O":
+        for k, v in f[1]:
+            if k == key:
+                m = v
+                break
+    elif key is None and f[0] == "A":
+        m = f[1][0] if f[1] else None
+    if m is None or m[0] == "N":
+        if f[0] == "O":
+            for k, v in f[1]:
+                if k == b"*":
+                    return v
+        return None
+    return m
+
+
+def project(v, f):
+    if v[0] == "A":
+        if not (is_true_f(f) or (f is not None and f[0] == "A")):
+            return ("N",)
+        ef = sub_f(f, None)
+        return ("A", [project(x, ef) for x in v[1]]) if truthy_f(ef) else ("A", [])
+    if v[0] == "O":
+        if not (is_true_f(f) or (f is not None and f[0] == "O")):
+            return ("N",)
+        out = []
+        for k, x in v[1]:
+            mf = sub_f(f, k)
+            if truthy_f(mf):
+                out.append((k, project(x, mf)))
+        return ("O", out)
+    return v if is_true_f(f) else ("N",)
+
+
+def gen_filter(rng, depth=0, keys=(b"a", b"b", b"k", b"")):
+    r = rng.random()
+    if depth > 3:
+        r *= 0.6
+    if r < 0.25:
+        return b"true"
+    if r < 0.32:
+        return rng.choice([b"false", b"null", b"1", b"0", b"2", b'"s"', b'""', b"1.0", b"0.0", b"-1"])
+    if r < 0.55:
+        n = rng.choice([0, 1, 1, 2])
+        return b"[" + b",".join(gen_filter(rng, depth + 1, keys) for _ in range(n)) + b"]"
+    n = rng.choice([0, 1, 2, 3])
+    ms = []
+    for _ in range(n):
+        k = rng.choice(list(keys) + [b"*", b"*"])
+        ms.append(b'"' + k + b'":' + gen_filter(rng, depth + 1, keys))
+    return b"{" + b",".join(ms) + b"}"
+
+
+class FilterSuite(Suite):
+    """C11: (input, filter) pairs for JSON and MessagePack; projection of the unfiltered result; memory; `true` is the identity"""
+    name = "filter"
+
+    def generate(self, rng, tier):
+        cb = cfgbits(self.cfg)
+        n = getattr(self, "n", 7000 if tier == "quick" else 400000)
+        cases = []
+        keys = (b"a", b"b", b"k", b"")
+        for i in range(n):
+            flt = gen_filter(rng) if rng.random() < 0.9 else b"true"
+            lim = rng.choice([10, 10, 10, 2, 3])
+            if rng.random() < 0.55:
+                # JSON input with keys from the same small set
+                def jv(d):
+                    r = rng.random()
+                    if d > 3:
+                        r *= 0.5
+                    if r < 0.5:
+                        return rng.choice([b"1", b"-2", b"1.5", b'"x"', b"true", b"false", b"null", b'"\\u00e9"', b"12345678901234567890", b'""'])
+                    if r < 0.75:
+                        return b"[" + b",".join(jv(d + 1) for _ in range(rng.choice([0, 1, 2, 3]))) + b"]"
+                    ms = []
+                    for _ in range(rng.choice([0, 1, 2, 3])):
+                        ms.append(b'"' + rng.choice(keys + (b"c",)) + b'":' + jv(d + 1))
+                    return b"{" + b",".join(ms) + b"}"
+                txt = jv(0)
+                r = rng.random()
+                if r < 0.2:
+                    txt = gens.mutate(rng, txt)
+                cases.append(Case("jsonfilt %d 0 %d %s %s" % (cb, lim, hx(flt), hx(txt)), fmt="j", text=txt, flt=flt, lim=lim))
+            else:
+                def mv(d):
+                    r = rng.random()
+                    if d > 3:
+                        r *= 0.5
+                    if r < 0.5:
+                        return rng.choice([("int", 1), ("int", -2), ("f32", 0x3FC00000), ("str", b"x"), ("bool", True), ("nil",), ("bin", b"\x01\x02"), ("ext", 1, b"ab"), ("int", 2 ** 40), ("f64", 0x3FB999999999999A)])
+                    if r < 0.75:
+                        return ("arr", [mv(d + 1) for _ in range(rng.choice([0, 1, 2, 3]))])
+                    return ("map", [(("str", rng.choice(keys + (b"c",))), mv(d + 1)) for _ in range(rng.choice([0, 1, 2, 3]))])
+                v = mv(0)
+                data = mpack.encode(v, rng)
+                if rng.random() < 0.2:
+                    data = gens.mutate(rng, data)
+                cases.append(Case("mpde 0 %d %s %s" % (lim, hx(flt), hx(data)), fmt="m", text=data, flt=flt, lim=lim))
+                cases.append(Case("mpde 0 %d - %s" % (lim, hx(data)), fmt="mu", text=data, flt=None, lim=lim, pair=len(cases) - 1))
+        return cases
+
+    def canon_h(self, case, h):
+        return " ".join(x for x in h.split(" ") if not x.startswith("req"))
+
+    def canon_m(self, case, m):
+        return m
+
+    def oracle(self, case, h):
+        o = Suite.oracle(self, case, h)
+        if o:
+            sig = o[0]
+            if case.meta["fmt"] == "m" and "null_pointer" in h:
+                sig = "filter:msgpack-null-array"
+            return (sig, o[1] + " on " + case.line[:120])
+        f = h.split(" ")
+        m = {x.split("=")[0]: int(x.split("=")[1]) for x in f if x.startswith("req") and "=" in x}
+        if "req" in m and "requ" in m and m["req"] > m["requ"]:
+            return ("filter:memory", "filtered run requested %d bytes, unfiltered run %d bytes: %s" % (m["req"], m["requ"], case.line[:140]))
+        if case.meta["fmt"] == "j" and case.meta["flt"] == b"true":
+            # the filter `true` is the identity on every input, malformed included (both results from the implementation)
+            u = [x for x in f if x.startswith("requ:")]
+            if u and u[0] != "requ:%s:%s" % (f[0], f[1]):
+                return ("filter:true-not-identity", "filter true gives '%s %s', no filter gives '%s' for %r" % (f[0], f[1][:60], u[0][5:65], case.meta["text"][:60]))
+        if case.meta["fmt"] == "j":
+            # projection of the unfiltered result, computed from the documented dialect's value
+            txt = case.meta["text"]
+            ref = dialect.recognize(txt, limit=case.meta["lim"])
+            fref = dialect.recognize(case.meta["flt"], limit=20)
+            if ref is None or fref is None or fref[0] != "Ok" or ref[0] != "Ok":
+                return None
+            if f[0] != "Ok":
+                if ref[1][0] in "UIQ":
+                    return None
+                return ("filter:rejected", "accepted without a filter but %s with filter %r: %r" % (f[0], case.meta["flt"][:40], txt[:60]))
+            def concrete(t):
+                # expected-number nodes stay as they are; project works on kinds only
+                return t
+            want = project(ref[1], fref[1])
+            probs = gens.match_expected(want, parse_tree(f[1]))
+            if probs:
+                return ("filter:not-projection", "filter %r on %r: %s" % (case.meta["flt"][:50], txt[:60], "; ".join(probs[:2])))
+        return None
+
+    def post(self, cases, ho):
+        """MessagePack: filtered result = projection of the unfiltered result of the same bytes (both from the implementation)"""
+        out = []
+        for i, c in enumerate(cases):
+            if c.meta["fmt"] != "mu":
+                continue
+            j = c.meta["pair"]
+            hu, hf = ho[i], ho[j]
+            if is_crash(hu) or is_crash(hf):
+                continue
+            fu, ff = hu.split(" "), hf.split(" ")
+            if fu[0] != "Ok":
+                continue
+            fref = dialect.recognize(cases[j].meta["flt"], limit=20)
+            if fref is None or fref[0] != "Ok":
+                continue
+            if ff[0] != "Ok":
+                out.append(("filter:rejected", "MessagePack accepted without a filter but %s with filter %r" % (ff[0], cases[j].meta["flt"][:40]), cases[j]))
+                continue
+            u = parse_tree(fu[1])
+            want = project(u, fref[1])
+            got = parse_tree(ff[1])
+            if show_tree(want) != show_tree(got):
+                # objects with repeated keys: statement is about the member list, which project() handles
+                out.append(("filter:not-projection", "MessagePack filter %r: got %s, projection of the unfiltered result is %s" % (
+                    cases[j].meta["flt"][:50], show_tree(got)[:80], show_tree(want)[:80]), cases[j]))
+        return out
+
+    def feature(self, case, h):
+        return case.line
+
+
+# ================================================================================================ C15: nesting
+class DepthSuite(Suite):
+    name = "depth"
+
+    def generate(self, rng, tier):
+        cb = cfgbits(self.cfg)
+        cases = []
+        Ls = [0, 1, 2, 5, 10, 100, 255] if tier == "quick" else list(range(0, 256, 5)) + [255]
+        reps = [1, 2, 3] if tier == "quick" else [1, 2, 3, 4, 5, 6]
+        for L in Ls:
+            for d in sorted({max(0, L - 1), L, L + 1, L + 2, 2000, 300}):
+                for kind in range(8):
+                    if kind == 0:
+                        txt, fmt = b"[" * d + b"]" * d, "j"
+                    elif kind == 1:
+                        txt, fmt = b'{"a":' * d + b"1" + b"}" * d, "j"
+                    elif kind == 2:
+                        txt, fmt = b"[" * d, "j"
+                    elif kind == 3:
+                        txt, fmt = (b"[{\"k\":" * (d // 2 + 1))[: 6 * (d // 2) + (1 if d % 2 else 0)] or b"1", "j"
+                        txt = b"".join([b"[" if i % 2 == 0 else b'{"k":' for i in range(d)]) + b"1"
+                    elif kind == 4:
+                        txt, fmt = b"\x91" * d + b"\x01", "m"
+                    elif kind == 5:
+                        txt, fmt = b"\x81\xa0" * d + b"\x01", "m"
+                    elif kind == 6:
+                        txt, fmt = b"\x91" * d, "m"
+                    else:
+                        txt, fmt = b"\xdc\x00\x01" * d + b"\xc0", "m"
+                    for flt in ("-", hx(b'{"zz":true}'), hx(b"[false]"), hx(b"true")):
+                        if flt != "-" and kind in (3, 7):
+                            continue
+                        cases.append(Case("depth %s %d %d %s %s" % (fmt, cb, L, flt, hx(txt)), L=L, d=d, kind=kind, fmt=fmt, closed=kind in (0, 1, 4, 5, 7), flt=flt))
+        return cases
+
+    def canon_h(self, case, h):
+        return " ".join(x for x in h.split(" ") if not x.startswith("stack="))
+
+    def calibrate(self, cases, ho):
+        # stack bytes used at L=0 and L=1 per (format, filter) give a + b*(L+1)
+        pass
+
+    def oracle(self, case, h):
+        o = Suite.oracle(self, case, h)
+        if o:
+            return o
+        f = h.split(" ")
+        L, d = case.meta["L"], case.meta["d"]
+        code = f[0]
+        nesting = int(f[1].split("=")[1])
+        if code == "Ok" and nesting > L:
+            return ("depth:ok-too-deep", "Ok with nesting()=%d > limit %d" % (nesting, L))
+        if d > L and code != "TooDeep":
+            return ("depth:not-toodeep", "input opens depth %d with limit %d (kind %d, filter %s): %s" % (d, L, case.meta["kind"], case.meta["flt"], code))
+        if d <= L and code == "TooDeep":
+            return ("depth:spurious-toodeep", "input of depth %d with limit %d gives TooDeep" % (d, L))
+        if code == "TooDeep":
+            # "as soon as": nothing beyond the offending bracket/header is consumed
+            pos = int(f[2].split("=")[1])
+            per = {0: 1, 1: 5, 2: 1, 4: 1, 5: 2, 6: 1, 7: 3}.get(case.meta["kind"])
+            if per and pos > per * (L + 1):
+                return ("depth:late-toodeep", "TooDeep only after %d bytes; the container at depth %d opens within the first %d" % (pos, L + 1, per * (L + 1)))
+        return None
+
+    def post(self, cases, ho):
+        """stack consumed is a function of L alone: an input of 2000 levels must not use more stack than one of L+1 / L+2 levels
+        (same format, container kind, filter and limit), beyond a small slack"""
+        out = []
+        ref = {}
+        rows = []
+        for c, h in zip(cases, ho):
+            if is_crash(h):
+                continue
+            f = h.split(" ")
+            st = [x for x in f if x.startswith("stack=")]
+            if not st:
+                continue
+            stack = int(st[0][6:])
+            key = (c.meta["L"], c.meta["kind"], c.meta["flt"])
+            rows.append((key, c, stack))
+            if c.meta["d"] in (c.meta["L"] + 1, c.meta["L"] + 2):
+                ref[key] = max(ref.get(key, 0), stack)
+        for key, c, stack in rows:
+            if key in ref and stack > ref[key] + 1024:
+                out.append(("depth:stack", "limit %d: an input of depth %d uses %d bytes of stack, one of depth L+1/L+2 uses %d" % (key[0], c.meta["d"], stack, ref[key]), c))
+        return out
+
+    def feature(self, case, h):
+        return case.line if case.meta["d"] > 0 else None
+
+
+# ================================================================================================ C16: streams
+class StreamSuite(Suite):
+    name = "stream"
+
+    def generate(self, rng, tier):
+        cb = cfgbits(self.cfg)
+        n = getattr(self, "n", 1500 if tier == "quick" else 100000)
+        cases = []
+        for i in range(n):
+            k = rng.randrange(1, 8)
+            docs = []
+            if rng.random() < 0.6:
+                parts = []
+                for j in range(k):
+                    exp, txt = gens.gen_value(rng, 0, 3, [rng.choice([1, 3, 6])])
+                    sep = b"".join(rng.choice([b" ", b"\n", b"\r\n", b"\t"]) for _ in range(rng.choice([0, 1, 1, 2])))
+                    isnum = exp[0] in "UIQ"
+                    if isnum and not sep:
+                        sep = b"\n"
+                    lead = gens.gen_ws(rng)
+                    parts.append(lead + txt + sep)
+                    docs.append((exp, len(lead) + len(txt), isnum))
+                data = b"".join(parts)
+                cases.append(Case("stream %d 20 %d %s" % (cb, rng.choice([0, 1, 3]), hx(data)), fmt="j", docs=docs, parts=parts))
+            else:
+                vals = [mpack.gen_value(rng, maxdepth=3) for _ in range(k)]
+                encs = [mpack.encode(v, rng) for v in vals]
+                cases.append(Case("mpstream 20 %d %s" % (rng.choice([0, 1, 3]), hx(b"".join(encs))), fmt="m", vals=vals, encs=encs))
+        return cases
+
+    def oracle(self, case, h):
+        o = Suite.oracle(self, case, h)
+        if o:
+            return o
+        if "ISTREAM-DIFFERS" in h:
+            return ("stream:istream-differs", "std::istream and custom reader give different sequences: " + case.line[:100])
+        calls = [c for c in h.split(";") if c]
+        if case.meta["fmt"] == "m":
+            encs, vals = case.meta["encs"], case.meta["vals"]
+            pos = 0
+            for i, (e, v) in enumerate(zip(encs, vals)):
+                if i >= len(calls):
+                    return ("stream:stopped-early", "only %d of %d MessagePack objects returned" % (len(calls), len(encs)))
+                f = calls[i].split(" ")
+                pos += len(e)
+                if f[0] != "Ok":
+                    return ("stream:mp-rejected", "object %d gave %s" % (i, f[0]))
+                if int(f[2]) != pos:
+                    return ("stream:mp-consumption", "after object %d the reader is at %s, the object ends at %d" % (i, f[2], pos))
+                probs = mp_expected_matches(v, parse_tree(f[1]))
+                if probs:
+                    return ("stream:mp-wrong-value", "object %d: %s" % (i, probs[0]))
+            return None
+        pos = 0
+        for i, ((exp, used, isnum), part) in enumerate(zip(case.meta["docs"], case.meta["parts"])):
+            if i >= len(calls):
+                return ("stream:stopped-early", "only %d of %d documents returned" % (len(calls), len(case.meta["docs"])))
+            f = calls[i].split(" ")
+            if f[0] != "Ok":
+                sig = "stream:rejected" + (":number-then-whitespace" if isnum else "")
+                return (sig, "document %d (%r) gave %s" % (i, part[:40], f[0]))
+            got = int(f[2])
+            want = pos + used
+            if (not isnum and got != want) or (isnum and not (want <= got <= want + 1)):
+                return ("stream:consumption", "after document %d (%r) the reader is at %d, the value ends at %d" % (i, part[:40], got, want))
+            probs = gens.match_expected(exp, parse_tree(f[1]))
+            if probs:
+                sig = "stream:wrong-value"
+                if any("relative error" in p or "infinity" in p or "magnitude" in p for p in probs):
+                    sig = "stream:number-accuracy"
+                elif any("expected keys" in p for p in probs):
+                    sig = "stream:key-with-nul"
+                return (sig, "document %d: %s" % (i, probs[0]))
+            # the next call starts where this one stopped
+            pos = got
+            # leading whitespace of the next part that was already consumed as separator is fine
+            if i + 1 < len(case.meta["docs"]):
+                nxt_start = sum(len(p) for p in case.meta["parts"][: i + 1])
+                e2, u2, n2 = case.meta["docs"][i + 1]
+                case.meta["docs"][i + 1] = (e2, u2 + (nxt_start - pos), n2)
+        return None
+
+    def feature(self, case, h):
+        return case.line
